@@ -99,12 +99,12 @@ type Sched struct {
 	join       sync.WaitGroup
 	nextGroup  int
 	// BlockedNote describes the blocked tasks at deadlock.
-	BlockedNote string
-	traceCap    int
-	stepsA      atomic.Int64 // mirror of steps, stored by the scheduler only
-	idleQ       []func()
+	BlockedNote  string
+	traceCap     int
+	stepsA       atomic.Int64 // mirror of steps, stored by the scheduler only
+	idleQ        []func()
 	pendingAbort []int
-	pmu         sync.Mutex
+	pmu          sync.Mutex
 	// Panics lists real (non-abort) panics of tasks; read after Close.
 	Panics []string
 }
